@@ -15,6 +15,10 @@ NOT_APPLICABLE = {
 
 # property -> (engine, category, technique, text, note, design_ref)
 CLAIMED = {
+    'C19': ('dims', 'other', 'units-of-measure inference: every floating expression of the spline/area code typed X^a Y^b, homogeneity constraints solved as a linear system over Q, first inconsistent expression reported',
+            'Decides only the unit-independence clause: coefficient formulas, piece lookup and trapezoid accumulation are dimensionally homogeneous (inferred S columns X, Y, Y/X, Y/X^2, Y/X^3; area X*Y), so no absolute tolerance or mismatched power of the spacing can make the result depend on the units of x. Interpolation, smoothness, exactness on lines, additivity and the simplex minimiser are NOT decided.',
+            'Trusted: clang AST; seeds (column 0 = X, column 1 = Y, abscissa vector X, prediction Y); literal 0 polymorphic, other literals dimensionless under +,-,compare; sentinel tests against MISSING exempt.',
+            'DESIGN.md 2/E11, 3/C19'),
     'C10': ('guards', 'other', 'control-dependence (guard dominance) analysis with structural recognition of the ApproxEq/MISSING idioms: zero-divisor guard with zero-store arm, not-missing guard over element reads and counters; option-dispatch exhaustiveness and delegation shape',
             'Decides the guard, missing-value, dispatch and delegation clauses: columns without spread are stored as exactly 0 at all 5 scaling-division sites, missing-coded cells are excluded from the five column statistics (reads and counts), options 1..5 have distinct explicit arms with a >= 0 centring gate, TensorPreprocess delegates block by block. The statistic values each option promises, zero means/unit spread and round-trip equality are NOT decided.',
             'Trusted: clang AST; ApproxEq recognised as ((v-e) < x) && (x < (v+e)); the MISSING literal from numeric.h.',
